@@ -217,4 +217,58 @@ func init() {
 			"that no other function writes oracle.Aggregates (writers: SetAggregate, FlagAggregateReport; checked only for the functions under contract through their frames)",
 		},
 	})
+	reg(&PropDef{
+		ID:    "C07",
+		Title: "Reports enter only an open round; each round aggregates exactly once",
+		Funcs: fcNP("x/oracle/keeper.msgServer.SubmitValue", "x/oracle/keeper.Keeper.DirectReveal", "x/oracle/keeper.Keeper.HandleBridgeDepositDirectReveal",
+			"x/oracle/keeper.Keeper.TokenBridgeDepositQuery", "x/oracle/keeper.Keeper.SetValue", "x/oracle/keeper.Keeper.CurrentQuery", "x/oracle/keeper.msgServer.Tip",
+			"x/oracle/keeper.Keeper.RotateQueries", "x/oracle/keeper.Keeper.ClearOldqueries", "x/oracle/keeper.Keeper.InitializeQuery",
+			"x/oracle/keeper.Keeper.GetCurrentQueryInCycleList", "x/oracle/keeper.msgServer.UpdateCyclelist"),
+		Assumptions: []string{
+			"trusted contracts: registry DecodeQueryType / DecodeValue / IsValueDecodable / Remove0xPrefix (ABI and string handling), oracle PreventBridgeWithdrawalReport (ABI decoding of the query data), reporter ReporterStake (frame and 0 <= stake < 2^64 whole tokens)",
+			"collections Walk / Iterate / Clear and the ghost cardinality count(store) as specified in tools/govc/walk.go and indexiter.go; crypto.Keccak256 of one argument is a function of its content (keccak)",
+			"round and window arithmetic stays below 2^64 (QuerySequencer < 2^64-2, block height + report window < 2^64); the tipper address passed ValidateBasic",
+		},
+		NotDecided: []string{
+			"that bridge-withdrawal queries are never reportable: decided inside PreventBridgeWithdrawalReport by ABI decoding, which is not modelled (only that SubmitValue rejects whatever that function rejects)",
+			"jail status and selector bookkeeping of the reporter (inside ReporterStake, C10)",
+			"'a round with reports produces exactly one aggregate and disappears' (SetAggregatedReport: loop over the HasReveals index with aggregation, rewards and removal) is not under contract yet; only its callees are (WeightedMedian/Mode, SetAggregate, AllocateRewards)",
+			"that the cycle list order is fixed: GetCyclelist returns the stored queries in key order, which the iterator model leaves unspecified",
+		},
+	})
+	reg(&PropDef{
+		ID:    "C02",
+		Title: "No accepted transaction sequence can make block processing fail",
+		Funcs: fcNP("x/oracle/keeper.Keeper.WeightedMedian", "x/oracle/keeper.Keeper.WeightedMode", "x/oracle/keeper.Keeper.SetValue",
+			"x/oracle/keeper.Keeper.RotateQueries", "x/oracle/keeper.Keeper.GetCurrentQueryInCycleList", "x/oracle/keeper.Keeper.GetCyclelist", "x/oracle/keeper.Keeper.InitCycleListQuery",
+			"x/oracle/keeper.msgServer.UpdateCyclelist", "x/oracle/keeper.Keeper.ClearOldqueries", "x/dispute/keeper.Keeper.UpdateDispute",
+			"x/dispute.CheckOpenDisputesForExpiration", "x/dispute.CheckClosedDisputesForExecution",
+			"x/mint.BeginBlocker", "x/mint.MintBlockProvision", "x/mint.SetPreviousBlockTime", "x/mint/keeper.Keeper.SendInflationaryRewards", "x/mint/keeper.Keeper.MintCoins"),
+		Assumptions: []string{
+			"per-function: each block-processing function is shown not to fail or panic under a stated store invariant (its requires), and the writers under contract are shown to establish that invariant; the induction over all handlers and blocks is not carried",
+			"bank.InputOutputCoins fails when the input or an output holds no positive coins (types.ValidateInputOutputs, cosmos-sdk v0.50.9) -- added to the trusted bank specification after the 1 ms mint defect",
+			"block time strictly increases between blocks (CometBFT BFT time) and the mint module account balance is non-negative",
+			"trusted contracts of C07 (registry decoding helpers); a submitted value that passes DataSpec.ValidateValue is a non-empty hex string after an optional 0x prefix",
+		},
+		NotDecided: []string{
+			"SetAggregatedReport as a whole (needs the store invariants 'a round marked HasRevealedReports has a report', 'one report per reporter and round', power bounds) and the bridge, reporter and proposal-handler block functions: not under contract; the dispute begin-block loops are covered for panics of the loop and iterator only (TallyVote/ExecuteVote errors propagate and are not excluded)",
+			"RotateQueries can still return an error when a cycle-list entry is not decodable query data (UpdateCyclelist does not validate the entries) -- governance-only input, not excluded",
+			"InitializeQuery / GetDataSpec failures for unregistered query types inside RotateQueries",
+		},
+	})
+	reg(&PropDef{
+		ID:    "C05",
+		Title: "The staked-token ledger is always backed by the staking pools",
+		Funcs: fcNP("x/reporter/keeper.Keeper.FeefromReporterStake", "x/reporter/keeper.Keeper.deductUnbondingDelegation"),
+		Assumptions: []string{
+			"assumed contracts on the staking keeper (x/reporter/types.StakingKeeper): Unbond returns the non-negative token amount it removed from the validator and moves no coins; unbonding entries have non-negative balances; Set/RemoveUnbondingDelegation change no bank balance",
+			"the ledger side is the staking module's: 'the amount leaves the ledger' means the sum of Unbond results (retsum(Unbond, 0)), resp. the reduction of unbonding-entry balances written back",
+			"every stored validator has positive delegator shares (staking invariant)",
+		},
+		NotDecided: []string{
+			"per-backer records of a second fee payment for the same dispute (the earlier records are appended: needs a sum-over-concatenation lemma)",
+			"EscrowReporterStake / undelegate / deductFromdelegation (apportioning over backers, redelegation chase), ReturnSlashedTokens / FeeRefund / AddAmountToStake (Delegate with subtractAccount=false paired with the dispute module's transfer to the bonded pool; suspected defect: coins always go to the bonded pool even when the validator is not bonded), WithdrawTip: not under contract",
+			"the pool >= ledger invariant itself is the staking module's and is not modelled",
+		},
+	})
 }
